@@ -3,6 +3,7 @@ import FordModel.Parse
 import FordModel.TypeSpec
 import FordModel.Mask
 import FordModel.Attribs
+import FordModel.TypeHead
 namespace Ford
 open Proto Parse
 
@@ -132,6 +133,35 @@ def dispatchC01 : List Str → Option (List Str)
         match Attribs.run ⟨C01D.b c1, C01D.b c2, C01D.b c3, C01D.b c4⟩ (C01D.b bd) inherit (stmts.map C01D.stmtOf) with
         | .ok vs => some ("ok".toList :: vs.map C01D.varStr)
         | .error _ => some ["exc".toList, "indexError".toList]
+      | _ => some ["bad-args".toList]
+    else if cmd == "c01.typere".toList then
+      match args with
+      | [s] =>
+        if !TypeHead.modelled s then some ["unmodelled".toList]
+        else
+          match TypeHead.typeRe s with
+          | some h => some ["some".toList, C01D.optStr h.attrs, h.name, C01D.optStr h.params]
+          | none => some ["none".toList]
+      | _ => some ["bad-args".toList]
+    else if cmd == "c01.typestmt".toList then
+      match args with
+      | [inh, s] =>
+        if !TypeHead.modelled s then some ["unmodelled".toList]
+        else
+          match TypeHead.typeStmt inh s with
+          | some t =>
+            some (["some".toList, t.name, C01D.optStr t.base, t.permission, showNat t.attribs.length]
+                  ++ t.attribs ++ t.parameters)
+          | none => some ["none".toList]
+      | _ => some ["bad-args".toList]
+    else if cmd == "c01.varre".toList then
+      match args with
+      | [s] =>
+        if !TypeHead.modelled s then some ["unmodelled".toList]
+        else
+          match TypeHead.varRe s with
+          | some (g1, g2) => some ["some".toList, g1, g2]
+          | none => some ["none".toList]
       | _ => some ["bad-args".toList]
     else none
   | [] => none
